@@ -137,11 +137,12 @@ fn step() -> Op {
 }
 
 /// setup ops for a path / child mode / root layout
-fn setup(path: Path, child: Child, layout: u8) -> Vec<Op> {
+fn setup(path: Path, child: Child, layout: u8, leaf: bool) -> Vec<Op> {
     let (pk, pn) = path.parent_kind();
     let mut body = vec![
         alloc(G, Kind::RCell, 0, vec![]),
-        alloc(C, Kind::Node, 0, vec![Some(G)]),
+        // the child is a tracing object with a grandchild, or (leaf) a payload that needs no tracing
+        if leaf { alloc(C, Kind::Leaf, 0, vec![]) } else { alloc(C, Kind::Node, 0, vec![Some(G)]) },
         alloc(
             H,
             Kind::Node,
@@ -178,14 +179,18 @@ fn setup(path: Path, child: Child, layout: u8) -> Vec<Op> {
     ops
 }
 
-fn act(path: Path, child: Child, act_cb: CbKind) -> Vec<Op> {
+fn act(path: Path, child: Child, act_cb: CbKind, leaf: bool) -> Vec<Op> {
     let cbk = |body: Vec<MOp>| Op::Cb { a: 0, kind: act_cb, body };
     let mut ops = Vec::new();
     let mut body: Vec<MOp> = Vec::new();
     let cid = if child == Child::Fresh { F } else { C };
     if child == Child::Fresh {
-        body.push(alloc(F + 1, Kind::RCell, 0, vec![]));
-        body.push(alloc(F, Kind::Node, 0, vec![Some(F + 1)]));
+        if leaf {
+            body.push(alloc(F, Kind::Leaf, 0, vec![]));
+        } else {
+            body.push(alloc(F + 1, Kind::RCell, 0, vec![]));
+            body.push(alloc(F, Kind::Node, 0, vec![Some(F + 1)]));
+        }
     }
     let strong_src_upgrade = child == Child::WeakOnly && !path.is_weak();
     match path {
@@ -354,17 +359,20 @@ fn matrix_c06(args: &Args, agg: &mut Agg, prop: &str) -> (u64, u64) {
             if child == Child::Shell && !path.is_weak() {
                 continue;
             }
-            for layout in 0..6u8 {
+            for layout6 in 0..12u8 {
+                // layouts 6..11 repeat the six trace orders with a LEAF child (payload without
+                // pointers: marked black directly, never queued)
+                let (layout, leaf) = (layout6 % 6, layout6 >= 6);
                 group += 1;
                 if let Some(only) = args.m.get("only") {
-                    if !only.starts_with(&format!("{}|{:?}|L{}|", path.name(), child, layout)) {
+                    if !only.starts_with(&format!("{}|{:?}|L{}{}|", path.name(), child, layout, if leaf { "leaf" } else { "" })) {
                         continue;
                     }
                 }
                 if group_shard && group % nshards != shard {
                     continue;
                 }
-                let mut pre = setup(*path, child, layout);
+                let mut pre = setup(*path, child, layout, leaf);
                 if child == Child::Shell {
                     // the audit in setup already destructed C (only weakly held); keep it a shell
                 }
@@ -391,7 +399,7 @@ fn matrix_c06(args: &Args, agg: &mut Agg, prop: &str) -> (u64, u64) {
                         if sample > 1 && !args.flag("only") && (if group_shard { idx.wrapping_mul(2654435761).wrapping_add(seed) } else { idx / nshards + seed }) % sample != 0 {
                             continue;
                         }
-                        let name = format!("{}|{:?}|L{}|k{}{}|{:?}|{:?}", path.name(), child, layout, k, if settle { "+marked" } else { "" }, d, act_cb);
+                        let name = format!("{}|{:?}|L{}{}|k{}{}|{:?}|{:?}", path.name(), child, layout, if leaf { "leaf" } else { "" }, k, if settle { "+marked" } else { "" }, d, act_cb);
                         if let Some(only) = args.m.get("only") {
                             if &name != only {
                                 continue;
@@ -404,7 +412,7 @@ fn matrix_c06(args: &Args, agg: &mut Agg, prop: &str) -> (u64, u64) {
                         if settle {
                             ops.push(Op::Collect { a: 0, op: COp::FinishMarking, fault: 0 });
                         }
-                        ops.extend(act(*path, child, act_cb));
+                        ops.extend(act(*path, child, act_cb, leaf));
                         ops.extend(drain(d, path.is_weak()));
                         ops.extend(tail(*path));
                         let r = run_scenario(&ops);
